@@ -185,6 +185,23 @@ pub fn run(ctx: &Ctx) -> i32 {
             check_case(ctx, st, &tcs, Settings::new(f));
         });
     }
+    // an ESC followed by a character class whose members spell an SGR sequence ([0m], [1;3m] ...)
+    {
+        let tails = ["0", "m", "1", ";", "3", "z", "["];
+        let mut cases: Vec<Vec<String>> = vec![];
+        for (i, a) in tails.iter().enumerate() {
+            for b in &tails[i + 1..] {
+                cases.push(vec![format!("\u{1b}{a}"), format!("\u{1b}{b}")]);
+                cases.push(vec![format!("key\u{1b}{a};"), format!("key\u{1b}{b};"), "key\u{1b}z;".to_string()]);
+                cases.push(vec![format!("\u{1b}{a}x"), format!("\u{1b}{b}x"), format!("\u{1b}{a}")]);
+            }
+        }
+        let fl = [NOEND, NOSTART | NOEND, VERB | NOEND, 0, REP | NOEND, CAP | NOSTART | NOEND];
+        par_for(&ctx.run, cases.len() * fl.len(), |i, st| {
+            st.count("esc_followed_by_class");
+            check_case(ctx, st, &cases[i % cases.len()], Settings::new(fl[i / cases.len()]));
+        });
+    }
     let n = if ctx.thorough { 400_000 } else { 40_000 };
     let names = ["sgr", "meta", "mixed", "ws", "graph", "astral", "classes", "ab", "case"];
     let alphabets: Vec<(String, Vec<String>)> = names.iter().map(|a| (a.to_string(), gen::alphabet(a))).collect();
